@@ -142,4 +142,5 @@ def run(ctx):
     ctx.assumptions = ["subscribers are identified by pointer; a subscriber that is unsubscribed AND subscribed again while a publish "
                        "is under way may or may not get that event (left open by the reference)",
                        "single-threaded use (the class has no locking); events carry only an id in the traces (extra pointer not compared)"]
-    ctx.uncovered = ["EventAction (the production subscriber) is exercised by C17's trees, not here"]
+    ctx.uncovered = ["EventAction (the production subscriber) itself is not exercised; the probes imitate its subscribe / unsubscribe / "
+                     "unsubscribe-and-destroy pattern"]
